@@ -202,9 +202,20 @@ class Interp(_Interp):
             return list(items)
         if dotted in LIBRARY_OBJECT_TYPES or (dotted.startswith("networkx.") and name in ("DiGraph", "Graph")):
             o = ExtObj(dotted, f"graph{len(self.ext_objs) + 1}")
+            o.concrete = bool(getattr(self.ex, "concrete_graph", False))
             self.ext_objs.append(o)
+            data = args[0] if args else kwargs.get("incoming_graph_data")
+            if data is not None:
+                if isinstance(data, (dict, ExtObj)):
+                    raise Unsupported("graph constructed from a mapping / another graph", node, fi)
+                self.ext_method(o, "add_edges_from", [data], {}, node, frame)  # DiGraph(edge list)
             return o
         if dotted.startswith("networkx."):
+            if name == "freeze" and args and isinstance(args[0], ExtObj) and args[0].concrete:
+                args[0].frozen = True
+                return args[0]
+            if args and isinstance(args[0], ExtObj) and args[0].concrete:
+                raise Unsupported(f"{dotted} on a concrete graph", node, fi)
             if name == "freeze" and args and isinstance(args[0], ExtObj):
                 self.effects.append(Effect("ext", args[0], "freeze", tuple(args[1:]), dict(kwargs), self.in_loop > 0, dict(self.path), args[0].version))
                 return args[0]
@@ -412,6 +423,10 @@ class Interp(_Interp):
                 m = self.repo.lookup_method(v.ci, "__len__")
                 if m is not None:
                     return self.call_function(m, [v], {})
+            if isinstance(v, ExtObj) and v.concrete:
+                return len(v.cnodes)
+            if isinstance(v, ExtView) and v.obj.concrete:
+                return len(self.view_native(v))
             if isinstance(v, ExtObj):
                 return App(f"extlen@{v.version}", (v.name,))
             if isinstance(v, ExtView):
@@ -910,6 +925,10 @@ class Interp(_Interp):
 
     def view_method(self, w: ExtView, name: str, args: list, kwargs: dict, node, frame) -> Any:
         o, v = w.obj, w.obj.version
+        if o.concrete:
+            if name == "data":
+                return self.view_call(w, [], {"data": args[0] if args else kwargs.get("data", True), "default": args[1] if len(args) > 1 else kwargs.get("default")}, node, frame)
+            return self.dict_method(self.view_native(w), name, args, kwargs, node, frame)
         if name == "get" and w.kind in ("adj1", "pred1"):
             a, b = (w.key, args[0]) if w.kind == "adj1" else (args[0], w.key)
             if self.decide(App(f"hasedge@{v}", (o.name, _h(a), _h(b)))):
@@ -940,9 +959,142 @@ class Interp(_Interp):
                     self.call(self.getattr_value(inst, "visit", node, frame), [x], {}, node, frame)
         return None
 
+    # ------------------------------------------------------------------ concrete library objects (networkx DiGraph semantics)
+    def concrete_graph_method(self, o: ExtObj, name: str, args: list, kwargs: dict, node, frame) -> Any:
+        fi = frame.fi if frame else None
+        if not all(is_native(a) for a in args if not isinstance(a, (list, tuple, dict, set, Seq))) :
+            raise Unsupported(f"symbolic argument of {name} on a concrete graph", node, fi)
+
+        def hashable(n: Any) -> Any:
+            if n is None:
+                raise Raised(None, "ValueError")
+            try:
+                hash(n)
+            except TypeError:
+                raise Raised(None, "TypeError")
+            if not is_native(n):
+                raise Unsupported("symbolic node in a concrete graph", node, fi)
+            return n
+
+        def add_node(n: Any, attrs: dict) -> None:
+            n = hashable(n)
+            o.cnodes.setdefault(n, {}).update(attrs)
+            o.cadj.setdefault(n, {})
+
+        def add_edge(u: Any, v: Any, attrs: dict) -> None:
+            for n in (u, v):
+                if hashable(n) not in o.cnodes:
+                    add_node(n, {})
+            o.cadj[u].setdefault(v, {}).update(attrs)
+
+        def remove_node(n: Any, strict: bool) -> None:
+            if n not in o.cnodes:
+                if strict:
+                    raise Raised(None, "NetworkXError")
+                return
+            del o.cnodes[n]
+            del o.cadj[n]
+            for u in o.cadj:
+                o.cadj[u].pop(n, None)
+
+        mutators = {"add_node", "add_nodes_from", "add_edge", "add_edges_from", "remove_node", "remove_nodes_from", "remove_edge", "remove_edges_from", "clear", "clear_edges", "update", "add_weighted_edges_from"}
+        if name in mutators and o.frozen:
+            raise Raised(None, "NetworkXError")
+        if name == "add_node":
+            add_node(args[0], kwargs)
+            return None
+        if name == "add_edge":
+            add_edge(args[0], args[1], kwargs)
+            return None
+        if name in ("add_nodes_from", "add_edges_from", "remove_nodes_from", "remove_edges_from"):
+            kind, items = self.iterate(args[0], node, frame)
+            if kind != "concrete":
+                raise Unsupported(f"{name} of an unknown collection on a concrete graph", node, fi)
+            for x in items:
+                if isinstance(x, Inst) and x.args[:1] == ("namedtuple",):
+                    x = tuple(x.fields[n] for n in x.args[1:])
+                if name == "add_nodes_from":
+                    if isinstance(x, tuple) and len(x) == 2 and isinstance(x[1], dict):
+                        add_node(x[0], {**kwargs, **x[1]})
+                    else:
+                        add_node(x, kwargs)
+                elif name == "add_edges_from":
+                    if not isinstance(x, (tuple, list)) or len(x) not in (2, 3):
+                        raise Raised(None, "NetworkXError")
+                    add_edge(x[0], x[1], {**kwargs, **(x[2] if len(x) == 3 else {})})
+                elif name == "remove_nodes_from":
+                    remove_node(x, False)
+                else:
+                    o.cadj.get(x[0], {}).pop(x[1], None)
+            return None
+        if name == "remove_node":
+            remove_node(args[0], True)
+            return None
+        if name == "remove_edge":
+            if args[1] not in o.cadj.get(args[0], {}):
+                raise Raised(None, "NetworkXError")
+            del o.cadj[args[0]][args[1]]
+            return None
+        if name == "clear":
+            o.cnodes.clear()
+            o.cadj.clear()
+            return None
+        if name == "clear_edges":
+            for u in o.cadj:
+                o.cadj[u].clear()
+            return None
+        if name in ("has_node", "__contains__"):
+            try:
+                return args[0] in o.cnodes
+            except TypeError:
+                return False
+        if name == "has_edge":
+            try:
+                return args[1] in o.cadj.get(args[0], {})
+            except TypeError:
+                return False
+        if name in ("has_successor", "has_predecessor"):
+            u, v = (args[0], args[1]) if name == "has_successor" else (args[1], args[0])
+            return v in o.cadj.get(u, {})
+        if name == "get_edge_data":
+            default = args[2] if len(args) > 2 else kwargs.get("default")
+            try:
+                return o.cadj.get(args[0], {}).get(args[1], default)
+            except TypeError:
+                return default
+        if name in ("successors", "neighbors", "predecessors"):
+            if args[0] not in o.cnodes:
+                raise Raised(None, "NetworkXError")
+            if name == "predecessors":
+                return [u for u in o.cnodes if args[0] in o.cadj.get(u, {})]
+            return list(o.cadj[args[0]])
+        if name in ("number_of_nodes", "order", "__len__"):
+            return len(o.cnodes)
+        if name in ("number_of_edges", "size"):
+            if args:
+                return 1 if args[1] in o.cadj.get(args[0], {}) else 0
+            return sum(len(a) for a in o.cadj.values())
+        if name in ("out_edges", "in_edges") and args:
+            if name == "out_edges":
+                return [(args[0], v) for v in o.cadj.get(args[0], {})]
+            return [(u, args[0]) for u in o.cnodes if args[0] in o.cadj.get(u, {})]
+        if name in ("out_degree", "in_degree", "degree") and args:
+            out_d = len(o.cadj.get(args[0], {}))
+            in_d = sum(1 for u in o.cnodes if args[0] in o.cadj.get(u, {}))
+            return {"out_degree": out_d, "in_degree": in_d, "degree": out_d + in_d}[name]
+        if name in ("copy", "to_directed"):
+            import copy as _copy
+
+            c = ExtObj(o.type, f"graph{len(self.ext_objs) + 1}", concrete=True, cnodes=_copy.deepcopy(o.cnodes), cadj=_copy.deepcopy(o.cadj))
+            self.ext_objs.append(c)
+            return c
+        raise Unsupported(f"method {name} of a concrete graph", node, fi)
+
     # ------------------------------------------------------------------ abstract library objects (networkx graph)
     def ext_method(self, o: ExtObj, name: str, args: list, kwargs: dict, node, frame) -> Any:
         fi = frame.fi if frame else None
+        if o.concrete:
+            return self.concrete_graph_method(o, name, args, kwargs, node, frame)
         v = o.version
         where = f"{fi.relpath}:{getattr(node, 'lineno', 0)}" if fi is not None and node is not None else ""
         if name in ("add_edges_from", "add_nodes_from") and args:
